@@ -1752,6 +1752,81 @@ def mon_c12_usable(case_line, acts):
     return out
 
 
+def mon_c15_stream(case_line, acts):
+    """C15 inbound: whatever the sizes and arrival times of the pieces, and whether or not a waiting read was dropped in
+    between, the messages surfaced on a connection are exactly the PUBLISH packets among the complete packets the client
+    has read on it, in order - as long as every complete packet read is certainly valid and no operation failed."""
+    out = []
+    rxcap = case_cfg(case_line)['rx']
+    got = []; inb = bytearray(); bad = False
+    def settle(where):
+        if bad:
+            return
+        want = []
+        for first, body in parse_server_packets(bytes(inb)):
+            if first >> 4 == 3:
+                m = _parse_inbound_publish(first, body)
+                if m is None:
+                    return
+                want.append(('x' + m['topic'].hex(), 'x' + m['payload'].hex(), str(m['q'])))
+        if got != want:
+            k = next((j for j, (x, y) in enumerate(zip(got, want)) if x != y), min(len(got), len(want)))
+            out.append(V('%s: %d complete PUBLISH packets were read on the connection, %d messages surfaced; first mismatch at #%d '
+                         '(read %s, surfaced %s)' % (where, len(want), len(got), k, want[k] if k < len(want) else None,
+                                                     got[k] if k < len(got) else None)))
+    for i, a in enumerate(acts):
+        res = a.result or ''
+        if a.code == 0:
+            settle('before the connect at action #%d' % i)
+            if out:
+                return out
+            inb = bytearray(); got = []; bad = False
+        n0 = len(inb)
+        for e in a.events:
+            if e[0] == 'r' and e[2]:
+                inb += bytes.fromhex(e[3])
+        if a.code == 0:
+            # the CONNACK is consumed by connect(); anything after it belongs to the connection
+            pk = parse_server_packets(bytes(inb))
+            if not res.startswith('ok') or not pk:
+                bad = True
+            else:
+                inb = inb[1 + len(pk[0][1]) + len(_varint_bytes(len(pk[0][1]))):]
+            continue
+        if res in ('PANIC', 'FUEL') or (res.startswith('err') and not res.startswith('err InvalidPacket')):
+            bad = True
+        used = 0
+        for first, body in parse_server_packets(bytes(inb)):
+            size = 1 + len(body) + len(_varint_bytes(len(body)))
+            used += size
+            if size > rxcap:
+                bad = True
+            try:
+                mqttspec.parse_server_packet(first, body)
+            except Exception:
+                bad = True
+        tail = bytes(inb[used:])
+        if len(tail) >= 2:
+            # a packet announced with more bytes than the receive buffer holds is refused on its header (C14), legitimately
+            try:
+                n, j = mqttspec.varint(tail, 1)
+                if j + n > rxcap:
+                    bad = True
+            except IndexError:
+                pass
+            except Exception:
+                bad = True
+        if res.startswith('err InvalidPacket') and not bad:
+            out.append(V('action #%d reports an invalid packet although every complete packet read on this connection is '
+                         'certainly valid: %s' % (i, bytes(inb).hex()[:120])))
+            return out
+        if res.startswith('ok msg'):
+            f = dict(x.split('=', 1) for x in res.split(' ')[2:] if '=' in x)
+            got.append((f.get('t'), f.get('p'), f.get('q')))
+    settle('at the end of the case')
+    return out
+
+
 # ---------------------------------------------------------------- twins: C15 (fragmentation), C13 (cancellation)
 def _wire_by_conn(acts):
     return [bytes(c['wire']) for c in connections(acts)]
